@@ -116,32 +116,56 @@ Definition exact_pairs (args : list val) : bool :=      (* no adjacent pair goes
 
 Definition all_int (args : list val) : bool :=
   forallb (fun v => match v with VFix z => in64 z | VBig _ => true | _ => false end) args.
+Definition is_fix (v : val) : bool := match v with VFix _ => true | _ => false end.
+
+(* + - * on integers: the accumulator stays a fixnum as long as every prefix result fits in 64 bits; the
+   first one that does not is computed with math/big and the accumulator is a bignum object from then
+   on (also after a bignum operand).  A bignum object is the canonical form only of a value that does not
+   fit in 64 bits (results are not demoted: known finding C05-bignum-result-not-demoted). *)
+Definition fold_domain (f : Z -> Z -> Z) (a : Z) (a_fix : bool) (rest : list val) : bool :=
+  all_int rest &&
+  ((a_fix && all_fix rest && prefixes_in64 f a (fixes rest)) || negb (in64 (fold_left f (fixes rest) a))).
 
 Definition in_domain (o : opn) (args : list val) : bool :=
   match o with
-  | OAdd => all_fix args && prefixes_in64 Z.add 0 (fixes args)
-  | OMul => all_fix args && prefixes_in64 Z.mul 1 (fixes args)
-  | OSub => all_fix args && match fixes args with
-                            | [a] => in64 (- a)
-                            | a :: rest => prefixes_in64 Z.sub a rest
-                            | [] => false end
-  | OInc => all_fix args && match fixes args with [a] => in64 (a + 1) | _ => false end
-  | ODec => all_fix args && match fixes args with [a] => in64 (a - 1) | _ => false end
-  | OAbs => all_fix args && match fixes args with [a] => in64 (Z.abs a) | _ => false end
+  | OAdd => fold_domain Z.add 0 true args
+  | OMul => fold_domain Z.mul 1 true args
+  | OSub => match args with
+            | [VFix a] => in64 a
+            | [VBig a] => negb (in64 (- a))
+            | VFix a :: rest => in64 a && fold_domain Z.sub a true rest
+            | VBig a :: rest => fold_domain Z.sub a false rest
+            | _ => false end
+  | OInc => match args with [VFix a] => in64 a | [VBig a] => negb (in64 (a + 1)) | _ => false end
+  | ODec => match args with [VFix a] => in64 a | [VBig a] => negb (in64 (a - 1)) | _ => false end
+  | OAbs => match args with [VFix a] => in64 a | [VBig a] => negb (in64 (Z.abs a)) | _ => false end
   | ORound m => all_fix args && match fixes args with
-                                | [n; d] => negb (d =? 0) && in64 (Z.quot n d) &&
+                                | [n; d] => (d =? 0) ||        (* a zero divisor: division-by-zero, as S demands *)
+                                            ((n =? - two63) && (d =? -1)) ||    (* the bignum 2^63 and the fixnum 0 *)
                                             match m with
                                             | Floor => (0 <? d) || (Z.rem n d =? 0)
-                                            | Round => in64 (Z.abs n) && in64 (Z.abs d) && in64 (2 * Z.rem (Z.abs n) (Z.abs d))
+                                            (* round works on magnitudes; when one of them is not a fixnum it uses the
+                                               bignum branch, whose results are bignum objects: value domain *)
+                                            | Round => (Z.rem n d =? 0) || (in64 (Z.abs n) && in64 (Z.abs d))
                                             | _ => true end
                                 | _ => false end
-  | OMod | ORem => all_fix args && match fixes args with [n; d] => negb (d =? 0) | _ => false end
+  | OMod => all_fix args && match fixes args with [n; d] => negb (d =? 0) | _ => false end   (* known: arithmetic-error *)
+  | ORem => all_fix args && match fixes args with [n; d] => true | _ => false end
   | OCmp _ => (1 <=? Z.of_nat (length args)) && exact_pairs args
   (* bitwise operations: integers only; once a bignum takes part the result is a bignum object, which is
      the canonical form only when the exact result does not fit in 64 bits *)
   | OBit b => all_int args && (all_fix args || negb (in64 (fold_left (bit_z b) (map as_int args) (bit_unit b))))
   | OLognot => match args with [VFix z] => in64 z | [VBig z] => negb (in64 (Z.lnot z)) | _ => false end
-  | ODiv | OGcd | OLcm => false     (* covered by correspondence and by S as a judge, no theorem *)
+  (* / on fixnums: the quotient of two fixnums always; in longer chains and for the reciprocal two results
+     are not demoted (known findings): (/ -1) is the ratio -1/1, and after most-negative-fixnum / -1 = 2^63
+     the quotient stays a bignum object *)
+  | ODiv => all_fix args && match fixes args with
+                            | [a] => negb (a =? -1)
+                            | [a; b] => true
+                            | a :: _ => negb (a =? - two63)
+                            | [] => false end
+  (* gcd lcm: any integers in any representation *)
+  | OGcd | OLcm => all_int args
   end.
 
 (* ---- a second, wider domain for the rounding divisions: operands of any representation the
@@ -176,3 +200,28 @@ Definition value_domain (o : opn) (args : list val) : bool :=
   | OBit _ => all_int args
   | _ => false
   end.
+
+(* ---- / at the level of values: a result in lowest terms (what math/big can hold, whatever slip's
+   canonical form would be), and a run that never left the exact types ---- *)
+Definition lowest (v : val) : bool :=
+  match v with
+  | VFix z => in64 z
+  | VBig _ => true
+  | VRat n d => (0 <? d) && (Z.gcd n d =? 1)
+  | VInexact => false
+  end.
+Definition exact_res (r : res) : bool := match r with RVal VInexact => false | _ => true end.
+Definition lowest_res (r : res) : bool :=
+  match r with RVal v => lowest v | RCond CDivZero => true | _ => false end.
+Definition div_value_domain (args : list val) (m_res : res) : bool :=
+  forallb wf args && (2 <=? Z.of_nat (length args)) && exact_res m_res.
+
+(* ---- + - * abs 1+ 1- at the level of values: operands as math/big holds them (ratios in lowest terms,
+   denominator 1 possible; bignum objects of any value), and a run that never left the exact types ---- *)
+Definition arith_value_domain (o : opn) (args : list val) (m_res : res) : bool :=
+  match o with
+  | OAdd | OMul => true
+  | OSub => negb (Nat.eqb (length args) 0)
+  | OInc | ODec | OAbs => Nat.eqb (length args) 1
+  | _ => false
+  end && forallb lowest args && exact_res m_res.
